@@ -114,7 +114,7 @@ def prog(env, case):
     from PEPit.psd_matrix import PSDMatrix
     from PEPit.constraint import Constraint
     for nm, o in held.items():
-        sig = tag.rsplit(":", 1)[0] + ":stale:" + type(o).__name__
+        sig = tag + ":stale:" + type(o).__name__
         what = "%s (%s) held by the user and evaluated after solve 1 does not evaluate to the latest solution" % (
             type(o).__name__, nm)
         if isinstance(o, Point):
@@ -133,13 +133,13 @@ def prog(env, case):
                     env.check_eq(v[i, j], den_expr(o[i, j], P, F), what, signature=sig)
     for c in pep._list_of_constraints_sent_to_wrapper:
         env.check_eq(c.eval(), den_expr(c.expression, P, F), "a sent constraint evaluates to an earlier solution",
-                     signature=tag.rsplit(":", 1)[0] + ":stale:sent-constraint")
+                     signature=tag + ":stale:sent-constraint")
     for psd in pep._list_of_psd_sent_to_wrapper:
         v = psd.eval()
         for i in range(psd.shape[0]):
             for j in range(psd.shape[1]):
                 env.check_eq(v[i, j], den_expr(psd[i, j], P, F), "a sent LMI evaluates to an earlier solution",
-                             signature=tag.rsplit(":", 1)[0] + ":stale:sent-lmi")
+                             signature=tag + ":stale:sent-lmi")
     # ---- (b, c) certificate of the last solve ---------------------------------------------------------------------
     spec2 = dict(spec)
     spec2['backend'] = b2
@@ -165,16 +165,50 @@ def prog(env, case):
     if kw.get('dimension_reduction_heuristic') and b2 == 'mosek':
         pass
     ctag = tag.rsplit(":", 1)[0] + ":accumulates"
-    env.check(len(r_last['rows']) == len(r_fresh['rows']) and r_last['psd'] == r_fresh['psd'],
+    # each solve creates a fresh objective leaf; the previous one stays behind as an unused scalar unknown.  Reported on
+    # its own (known finding), and factored out of the row comparison by renumbering the USED function-value unknowns.
+    env.check(r_last['nF'] == r_fresh['nF'], "after %d solves the solver receives %d function-value unknowns, a freshly built "
+              "equivalent model %d (one unused leaf - the previous objective - is left behind per solve)"
+              % (2 + (edit == 'failed-middle-solve'), r_last['nF'], r_fresh['nF']),
+              signature=tag.rsplit(":", 1)[0] + ":unknowns-grow")
+    rows_last, rows_fresh = _compress(r_last), _compress(r_fresh)
+    if env.sym and kw.get('dimension_reduction_heuristic'):
+        # the heuristic's own row `first optimum - tol - objective <= 0` carries the solver-output symbol of its own solve
+        # (differently named in the two runs): its shape is C11's / C14's subject, here only its presence is compared
+        from vf.engine import is_output_term, lift
+
+        def split(rows):
+            plain = [r for r in rows if not is_output_term(lift(r['const']))]
+            return plain, len(rows) - len(plain)
+        rows_last, n1 = split(rows_last)
+        rows_fresh, n2 = split(rows_fresh)
+        env.check(n1 == n2 == 1, "heuristic rows: %d after re-solve, %d in a fresh model (expected 1 and 1)" % (n1, n2),
+                  signature=tag + ":heuristic-rows")
+    env.check(len(rows_last) == len(rows_fresh) and r_last['psd'] == r_fresh['psd'],
               "after %d solves the solver receives %d rows / PSD variables %s; a freshly built equivalent model sends %d / %s"
-              % (2 + (edit == 'failed-middle-solve'), len(r_last['rows']), r_last['psd'], len(r_fresh['rows']),
-                 r_fresh['psd']), signature=ctag)
-    if len(r_last['rows']) == len(r_fresh['rows']) and r_last['psd'] == r_fresh['psd']:
-        missing, extra = sdp.match_rows(env, [dict(kind=a[0], form=a[1], const=a[2]) for a in r_fresh['rows']],
-                                        [dict(kind=a[0], form=a[1], const=a[2]) for a in r_last['rows']])
-        env.check(not missing and not extra, "the data sent at the last solve differs from a freshly built equivalent model",
+              % (2 + (edit == 'failed-middle-solve'), len(rows_last), r_last['psd'], len(rows_fresh), r_fresh['psd']),
+              signature=ctag)
+    if len(rows_last) == len(rows_fresh) and r_last['psd'] == r_fresh['psd']:
+        missing, extra = sdp.match_rows(env, rows_fresh, rows_last)
+        env.check(not missing and not extra, "the data sent at the last solve differs from a freshly built equivalent model: "
+                  "only fresh %s / only re-solved %s" % ([sdp.describe(r) for r in missing[:2]],
+                                                        [sdp.describe(r) for r in extra[:2]]),
                   signature=tag + ":input-differs")
     return "%s" % edit
+
+
+def _compress(rec):
+    """rows with the used F indices renumbered 0..k-1 in increasing order (objective included)"""
+    used = set()
+    for kind, form, const in rec['rows']:
+        used |= {k[1] for k in form if k[0] == 'F'}
+    used |= {k[1] for k in rec['objective'][1] if k[0] == 'F'}
+    ren = {old: new for new, old in enumerate(sorted(used))}
+    out = []
+    for kind, form, const in rec['rows']:
+        out.append(dict(kind=kind, const=const,
+                        form={(('F', ren[k[1]]) if k[0] == 'F' else k): v for k, v in form.items()}))
+    return out
 
 
 MODELS = [
